@@ -21,6 +21,9 @@ CHECKS = {
     'C10': ('exact abstract interpretation of the engines\' 6-bit _flags word (complete (flags, return code, events) relation, closed under reachability from PRISTINE); null-handle typestate of the facade handles on the CFG of the pre-init API entries; field-write facts (step() vs reset()); dominance rules for the cancel protocol and destructor order; sticky-wake-up rule for while(flag)-dispatch thread roots; lock-order cycles through joins; shared-field lock-set table over thread-root reachability',
             'Decides for all charts and schedules the life-cycle automaton of step() results (finished absorbing, cancelled -> exactly one finalising step, idle only when stable, pristine enters the initial configuration), that receive/cancel/reset/destruction never use a handle that init() has not created, that reset() re-initialises every persistent run-state member and queue, that cancel() marks before it unblocks and the woken step sees the mark, that the timer thread is woken with a sticky primitive and never joined under a lock it needs (recorded finding excepted), and that every field shared between the API, timer and invoker threads has a common mutex or a confirmed reason.',
             'Not decided: that a reset interpreter behaves like a fresh one beyond member coverage (data model values).'),
+    'C11': ('edge dominance and CFG reachability for the placement of (un)invocation between the internal and the external dequeue; path rule that every invoke/uninvoke is followed by the matching _invocations update on all paths; control-dependence of the completion-phase uninvoke; ordering/gating rules on USCXMLInvoker (run, stop, uninvoke, parent queue); if-chain table extraction for the send-target routing; lock-order cycles through invoker nodes; NULL-test dominance for every reader of the invokeid user datum',
+            'Decides that both engines start and cancel invocations only at macrostep end, keep _invocations in step with what was (un)invoked on every path, cancel every remaining invocation at completion, that finalize and autoforward run before the event is matched, that the invoker thread reports done.invoke only after FINISHED and only while active, that stop() deactivates, cancels and joins in that order, that late child events are gated, that targets are routed to exactly the specified sink, and that no reader of the invoke id dereferences NULL.',
+            'Not decided: exactly-once / iff statements across all thread interleavings beyond what the lock, gate and ordering structure gives.'),
     'C12': ('call-graph who-calls rule for the single matcher; linear normal form of token guards and a confirmed table of skip/start/last-token combinations in the sibling scanner loops; structural fingerprint + decision-feature comparison of the two matcher copies; normalisation-feature extraction at every trie lookup',
             'Decides that interpreter, validator and debugger share one matcher, that every whitespace-splitting scanner (incl. the copies shipped for generated C) takes every non-empty token, that the shipped copy of the matcher has the same decision features, and that Promela and VHDL normalise descriptors alike before static resolution.',
             'Not decided: the relation nameMatch computes on all strings (needs execution or a solver).'),
